@@ -415,7 +415,7 @@ pub fn kinds8() -> Vec<Specs> {
 pub fn boundary_case(rng: &mut Rng, nmin: usize, nmax: usize, kinds: &[Specs], wclasses: &[WClass]) -> GCase {
     let specs = *rng.pick(kinds);
     let wclass = *rng.pick(wclasses);
-    let mut variant = rng.below(5);
+    let mut variant = rng.below(if nmax >= 80 { 6 } else { 5 });
     if nmax < 22 && variant < 2 {
         variant = 2 + rng.below(3);
     }
@@ -500,6 +500,25 @@ pub fn boundary_case(rng: &mut Rng, nmin: usize, nmax: usize, kinds: &[Specs], w
             }
             c.family = "boundary-extreme-weights";
             c
+        }
+        5 => {
+            // improvement cascade: a chain of hubs each of which strictly improves every leaf
+            let k = rng.range(4, 8);
+            let leaves = (nmax - k).min(rng.range(66, 130));
+            let n = k + leaves;
+            let names = scrambled_names(n, rng);
+            let mut edges = vec![];
+            let weighted = wclass.weighted();
+            for h in 1..k {
+                edges.push((h - 1, h, if weighted { 1.0 } else { f64::NAN }));
+            }
+            for h in 0..k {
+                for l in 0..leaves {
+                    edges.push((h, k + l, if weighted { 100.0 - 4.0 * h as f64 + (l % 7) as f64 } else { f64::NAN }));
+                }
+            }
+            rng.shuffle(&mut edges);
+            GCase { specs: Specs::kind(specs.directed, false, false), names, edges, family: "boundary-improvement-cascade", wclass: if weighted { WClass::Exact } else { WClass::Unweighted } }
         }
         _ => {
             // several edges carrying exactly the maximum weight, and equal sums by different routes
